@@ -23,9 +23,13 @@ ASSUMPTIONS = ["out of scope by design: references into hidden `__` tables and l
 W = dict(dual_fwd=0.25, ref=0.45, fwd=0.45, nick=0.5, dotted=0.35, nested=0.18, friend=0.45, zero_count=0.12, once=0.2, formula=0.2)
 
 
+DIRECTED = [S.stream_shared_nick_forward, S.stream_shared_nick_forward, S.stream_idle_middle, S.stream_once_cluster]
+
+
 def gen_case(rng):
     from .c04 import row_valued_in_once
-    r, feats = S.gen_recipe(rng, W)
+    directed = rng.random() < 0.12      # directed streams (DESIGN.md 11.4)
+    r, feats = rng.choice(DIRECTED)(rng) if directed else S.gen_recipe(rng, W)
     r["stmts"].append(["obj", {"table": MARK, "nick": None, "count": None, "once": False, "fields": [], "friends": []}])
     k = rng.choice([1, 2, 2, 3, 4])
     ks = [k]
